@@ -807,6 +807,8 @@ def _b2i_arr(a):
 
 def _reduce_minmax(a, axis, is_max):
     def red(vals):
+        if len(vals) == 0:
+            raise ValueError("zero-size array to reduction operation which has no identity")
         out = _num(vals[0])
         for v in vals[1:]:
             v = _num(v)
@@ -913,7 +915,14 @@ class NpProxy(types.ModuleType):
         self.__dict__["_np"] = _real_np
 
     def __getattr__(self, name):
-        return getattr(_real_np, name)
+        obj = getattr(_real_np, name)
+        if isinstance(obj, (types.FunctionType, types.BuiltinFunctionType)) or type(obj).__name__ in ("_ArrayFunctionDispatcher", "ufunc"):
+            def wrapped(*a, **k):
+                if "dtype" in k and k["dtype"] is float_shim:
+                    k["dtype"] = float
+                return _rewrap(obj(*a, **k))
+            return wrapped
+        return obj
 
     # creation: object arrays so that symbolic values can be stored later
     def zeros(self, shape, dtype=float, **kw):
@@ -1142,6 +1151,17 @@ def exactify(a):
         else:
             of[i] = v
     return SymNd(out)
+
+
+def _rewrap(r):
+    """object-dtype results of plain NumPy functions become SymNd again"""
+    if isinstance(r, np.ndarray) and r.dtype == object and not isinstance(r, SymNd):
+        return r.view(SymNd)
+    if isinstance(r, tuple):
+        return tuple(_rewrap(x) for x in r)
+    if isinstance(r, list):
+        return [_rewrap(x) for x in r]
+    return r
 
 
 def _has_sym(obj):
